@@ -167,7 +167,7 @@ class DtString(Harness):
             cl.append(("from_string returns a datetime Vector of the same length", T(isinstance(back, Arr) and len(back) == n)))
         return cl
 
-PATTERNS = [r"[a-z]", r"x*", r"^", r"(a)|b"]
+PATTERNS = [r"[a-z]", r"x*", r"^", r"(a)|b", "", "a"]       # incl. the empty pattern and a plain literal
 
 def re_norm(v):
     if type(v).__name__ == "Match": return ["re.Match", v.span()[0], v.span()[1], v.group(0)]
@@ -200,10 +200,13 @@ class Regex(Harness):
         # matters - aim the observation there
         cells = [symx.tocell(c) for c in inp["x"].cells]
         if inp.get("scalar"): cells = [symx.tocell(inp["scalar_value"])]
-        if not cells or not inp.get("flags"): return []
+        if not cells: return []
+        mixed = [("a missing string next to a non-missing one", z3.And(z3.Or([c.is_empty() for c in cells]), z3.Or([z3.Not(c.is_empty()) for c in cells]))),
+                 ("all strings missing", z3.And([c.is_empty() for c in cells]))] if not inp.get("scalar") else []
+        if not inp.get("flags"): return mixed
         def upper(c): return z3.And(z3.UGE(c.n, 1), z3.UGE(c.ch[0], 0x41), z3.ULE(c.ch[0], 0x5A), z3.Not(c.tail))
         def multi(c): return z3.And(c.n == 2, c.ch[0] == 0x0A, z3.UGE(c.ch[1], 0x61), z3.ULE(c.ch[1], 0x7A), z3.Not(c.tail))
-        return [("an upper-case ASCII letter first", z3.Or([upper(c) for c in cells])),
+        return mixed + [("an upper-case ASCII letter first", z3.Or([upper(c) for c in cells])),
                 ("a line feed followed by a letter", z3.Or([multi(c) for c in cells])),
                 ("all strings start with an upper-case letter", z3.And([upper(c) for c in cells]))]
     def expected_concrete(self, inp, s):
